@@ -115,11 +115,16 @@ func c04RunRaw(cs c04Case) (fs []F) {
 	fail := func(kind, format string, a ...any) {
 		fs = append(fs, core.Failf("AppendSample/"+kind, "%+v: %s", cs, fmt.Sprintf(format, a...)))
 	}
-	var root, b dyn.Buf
+	var root, b, srcParent dyn.Buf
 	if cs.Grown {
-		b = dyn.Alloc(t, al(cs.C, 1, 1))
-		b.Append(dyn.Alloc(t, al(cs.C, cs.L, cs.L)))
-		cs.L, cs.P, cs.S = cs.L+1, b.Capacity(), 0
+		// the destination is empty (even L) or holds one frame (odd L); the source is a window, with spare
+		// capacity behind it, of a larger filled buffer that must stay as it is
+		l0 := cs.L % 2
+		b = dyn.Alloc(t, al(cs.C, l0, l0))
+		srcParent = dyn.Alloc(t, al(cs.C, cs.L+3, cs.L+3))
+		fill(srcParent, 1)
+		b.Append(srcParent.Slice(0, cs.L))
+		cs.L, cs.P, cs.S = cs.L+l0, b.Capacity(), 0
 		if b.Len() != cs.C*cs.L || b.Cap() != cs.C*cs.P || cs.P < cs.L {
 			fail("view", "the buffer grown by Append has Len %d Cap %d Capacity %d (want Len %d and whole frames)", b.Len(), b.Cap(), b.Capacity(), cs.C*cs.L)
 			return
@@ -183,6 +188,14 @@ func c04RunRaw(cs c04Case) (fs []F) {
 			return
 		}
 	}
+	if srcParent != nil {
+		for i := 0; i < srcParent.Len(); i++ {
+			if g := srcParent.Sample(i).Tok(); g != tk(int64(1+i)) {
+				fail("storage", "the buffer was grown by an Append from a window of another buffer; after %d calls sample %d of that other buffer reads %d, it was %d", cs.N, i, g, tk(int64(1+i)))
+				return
+			}
+		}
+	}
 	// storage identity after all the calls (also those on the full buffer): a write through the parent
 	// storage is seen through the buffer and the other way round
 	var idx []int
@@ -205,6 +218,24 @@ func c04RunRaw(cs c04Case) (fs []F) {
 			return
 		}
 		tok = tk(tok + 1)
+	}
+	// after calls on the full buffer: Append gives the same header room again, and the next single-sample
+	// append is an ordinary one
+	if !cs.Sparse && m.n == cap0 && cs.N > cap0-cs.C*cs.L && m.n%cs.C == 0 && cs.C*cs.P <= 4096 {
+		one := dyn.Alloc(t, al(cs.C, 1, 1))
+		fill(one, 30)
+		b.Append(one)
+		if b.Len() != m.n+cs.C || b.Cap() < b.Len() {
+			fail("view", "after the full buffer was grown by Append of one frame: Len %d Cap %d, want Len %d", b.Len(), b.Cap(), m.n+cs.C)
+			return
+		}
+		if b.Cap() > b.Len() {
+			b.AppendSample(dyn.Tok(t, tok))
+			if b.Len() != m.n+cs.C+1 || b.Sample(b.Len()-1).Tok() != tok {
+				fail("view", "a buffer that had refused appends while full was grown by Append (Cap %d); the next AppendSample left Len %d (want %d)", b.Cap(), b.Len(), m.n+cs.C+1)
+				return
+			}
+		}
 	}
 	return
 }
